@@ -387,7 +387,14 @@ func pool(s *simrt.Sim, restart bool) {
 					// restart right away, without waiting for the previous shutdown to complete
 					continue
 				}
-				p.ShutdownComplete.Wait()
+				// ShutdownComplete is a sync.WaitGroup: a waiter released at zero that finds the counter raised again
+				// (another task's Start) when it runs panics in Go; that outcome gets a signature of its own
+				if panicked, pv := hx.Try(p.ShutdownComplete.Wait); panicked {
+					if strings.Contains(fmt.Sprint(pv), "WaitGroup is reused") {
+						s.Fail("shutdown-complete", "wait-panics:pool-restarted-by-another-task-before-the-released-waiter-ran", "%s: ShutdownComplete.Wait() panicked (%v): the pool's workers had all exited, the waiter was released, and another task's Start raised the WaitGroup again before the waiter ran", name, pv)
+					}
+					panic(pv)
+				}
 				// completely shut down - unless somebody has invoked Start since this Shutdown was invoked, or is inside Start
 				if w.startSeq == seq && w.startsInFlight == 0 {
 					w.down = true
